@@ -78,7 +78,7 @@ def main():
         meta["existing_tests_pass_with_patch"] = t1.returncode == 0
         shutil.copy(demo, demo_dst)
         extra_args = []
-        if "-race" in note_text:
+        if "-race" in note_text and not os.environ.get("SEED_NORACE"):
             extra_args = ["-race"]
         env = dict(os.environ)
         if "clobberfree" in note_text:
